@@ -68,6 +68,10 @@ def step (s : Sess) (c : Cmd) : Sess × String × String :=
   let to := let t := c.nat "to" 1; if t < NSLOT then t else 1
   let x := c.arg 0
   let y := c.arg 1
+  -- `noout=1` on an operation with an optional out-pointer: NULL is passed, no `out=` is printed
+  let noout := c.nat "noout" 0 == 1 && ["pop", "it_replace", "zit_replace"].contains c.op
+  let fmtOut := fun (st : Stat) (o : Option Nat) => if noout then fmtStat st else CC.Driver.ArrayD.fmtOut st o
+  let fmtOut2 := fun (st : Stat) (o : Option (Nat × Nat)) => if noout then fmtStat st else CC.Driver.ArrayD.fmtOut2 st o
   -- construction shared by `new` and `mk_new`
   let build (isNew : Bool) (m : Mem) : Stat × Option Stack × Mem × Stat :=
     let (cap, f) := confOf c isNew
